@@ -26,14 +26,19 @@ import (
 	"github.com/gopher-fleece/gleece/v2/core/pipeline"
 	"github.com/gopher-fleece/gleece/v2/core/visitors"
 	"github.com/gopher-fleece/gleece/v2/definitions"
+	"github.com/iancoleman/strcase"
 )
 
 const vhC09Head = `package ctl
 
 import (
+	"context"
+
 	"example.com/other"
 	"github.com/gopher-fleece/runtime"
 )
+
+var _ context.Context
 
 type Model struct {
 	X string ` + "`json:\"x\" validate:\"required\"`" + `
@@ -118,7 +123,9 @@ func vhC09Source(routes []vhC09Route) string {
 	for _, r := range routes {
 		sb.WriteString("// @Method(" + r.verb + ")\n// @Route(" + r.path + ")\n")
 		for _, p := range r.params {
-			sb.WriteString("// @" + p.loc + "(" + p.name + ")\n")
+			if p.loc != "" { // a context.Context parameter is not annotated
+				sb.WriteString("// @" + p.loc + "(" + p.name + ")\n")
+			}
 		}
 		if r.security {
 			sb.WriteString("// @Security(sec, { scopes: [\"read\"] })\n")
@@ -259,14 +266,20 @@ func vhC09CheckFormat(text string) {
 
 // vhC09Generate runs front end + pipeline + GenerateRoutes and returns the written text ("" and false when the
 // project or the generation was refused).
-func vhC09Generate(routes []vhC09Route, cfg *definitions.GleeceConfig) (string, bool) {
+type vhC09Run struct {
+	src  string
+	cfg  *definitions.GleeceConfig
+	text string
+}
+
+func vhC09Generate(routes []vhC09Route, cfg *definitions.GleeceConfig) (*vhC09Run, bool) {
 	symxRealLibrary("raymond")
 	symxRealLibrary("no-faults")
 	src := vhC09Source(routes)
 	fr, err := visitors.VhLoadSource(src, nil)
 	symxAssert(err == nil, "C09.fixture-compiles")
 	if err != nil {
-		return "", false
+		return nil, false
 	}
 	if !symxIsSymbolic() {
 		os.RemoveAll(filepath.Dir(cfg.RoutesConfig.OutputPath))
@@ -275,56 +288,222 @@ func vhC09Generate(routes []vhC09Route, cfg *definitions.GleeceConfig) (string, 
 	if err != nil {
 		symxRecord("project-refused", true)
 		symxCover("C09.project-refused")
-		return "", false
+		return nil, false
 	}
 	err = GenerateRoutes(cfg, meta)
 	text, written := vhC09Written(cfg.RoutesConfig.OutputPath)
 	if err != nil {
 		symxRecord("generation-refused", true)
 		symxAssert(!written, "C09.no-file-when-generation-fails")
-		return "", false
+		return nil, false
 	}
 	symxAssert(written, "C09.file-written-when-generation-succeeds")
 	if !written {
-		return "", false
+		return nil, false
 	}
 	symxCover("C09.generated")
 	symxRecord("bytes", len(text))
 	symxRecord("text", text)
-	// the second, semantic half is decided against the real packages, which only the native run can load
-	typed := true
-	why := ""
-	if !symxIsSymbolic() {
-		why = vhC09TypeCheck(src, text, cfg)
-		typed = why == ""
-		if !typed {
-			symxRecord("native-type-error", why)
-		}
-	}
-	symxAssert(typed, "C09.native.file-type-checks-against-engine-controllers-and-auth")
-	return text, true
+	return &vhC09Run{src: src, cfg: cfg, text: text}, true
 }
 
-// one route with one non-body parameter of every supported type in every location, for every engine
-func vh_C09_front_param_types_Q() {
-	engine := symxChoice("engine", 5)
-	pt := symxChoice("ptype", len(vhC09ParamTypes))
-	loc := symxChoice("loc", 3)
+// one route with one non-body parameter of every supported type in every location, for every engine (two harnesses,
+// so that every path of either is replayed natively)
+func vhC09OneParam(engine, pt, loc int) {
 	locs := []string{"Query", "Header", "Path"}
 	path := "/op"
 	if loc == 2 {
 		path = "/op/{p1}"
 	}
 	routes := []vhC09Route{{name: "Op", verb: "GET", path: path, params: []vhC09Param{{"p1", locs[loc], vhC09ParamTypes[pt]}}, result: 1}}
-	cfg := vhC09Config(engine, "")
-	text, ok := vhC09Generate(routes, cfg)
+	run, ok := vhC09Generate(routes, vhC09Config(engine, ""))
+	vhC09Finish(run, ok, "routes", engine, "Op")
+}
+
+func vh_C09_front_param_types_Q() {
+	vhC09OneParam(symxChoice("engine", 5), symxChoice("ptype", len(vhC09ParamTypes)), symxChoice("loc", 2))
+}
+
+func vh_C09_front_path_param_types_Q() {
+	vhC09OneParam(symxChoice("engine", 5), symxChoice("ptype", len(vhC09ParamTypes)), 2)
+}
+
+// vhC09Finish: everything the property says about a written file, in the order syntax - semantics - layout
+func vhC09Finish(run *vhC09Run, ok bool, pkg string, engine int, calls ...string) {
 	if !ok {
 		return
 	}
-	f := vhC09CheckFile(text, "routes", vhC09EnginePkg[engine])
-	if f == nil {
+	text := run.text
+	if vhC09CheckFile(text, pkg, vhC09EnginePkg[engine]) == nil {
 		return
 	}
-	symxAssert(strings.Contains(text, "controller.Op("), "C09.controller-method-is-called")
+	for _, c := range calls {
+		symxAssert(strings.Contains(text, "controller."+c+"("), "C09.controller-method-is-called")
+	}
+	// the semantic half is decided against the real packages, which only the native run can load
+	typed := true
+	if !symxIsSymbolic() {
+		why := vhC09TypeCheck(run.src, text, run.cfg)
+		typed = why == ""
+		if !typed {
+			symxRecord("native-type-error", why)
+		}
+	}
+	symxAssert(typed, "C09.native.file-type-checks-against-engine-controllers-and-auth")
 	vhC09CheckFormat(text)
+}
+
+func vhC09Flag(name string) bool {
+	// decided by a branch, so that the configuration holds a plain bool
+	if symxBool(name) {
+		return true
+	}
+	return false
+}
+
+func vhC09Bodies(engine, body int) {
+	routes := []vhC09Route{{name: "Op", verb: "POST", path: "/op", params: []vhC09Param{{"payload", "Body", vhC09BodyTypes[body]}}, result: 0}}
+	symxKnownFor("C09-map-typed-body-renders-invalid-go", "C09.file-is-syntactically-valid-go", strings.HasPrefix(vhC09BodyTypes[body], "map["))
+	run, ok := vhC09Generate(routes, vhC09Config(engine, ""))
+	vhC09Finish(run, ok, "routes", engine, "Op")
+}
+
+// one route taking a body of every supported shape (local, imported, pointer, slice, map, primitive), per engine
+func vh_C09_front_body_types_Q() {
+	vhC09Bodies(symxChoice("engine", 5), symxChoice("body", len(vhC09BodyTypes)))
+}
+
+// one route returning every supported result shape, per engine, with response validation on or off
+func vh_C09_front_result_types_Q() {
+	engine := symxChoice("engine", 5)
+	res := symxChoice("result", len(vhC09Results))
+	cfg := vhC09Config(engine, "")
+	cfg.RoutesConfig.ValidateResponsePayload = vhC09Flag("validateResponsePayload")
+	routes := []vhC09Route{{name: "Op", verb: "GET", path: "/op", result: res}}
+	symxKnownFor("C09-map-typed-result-renders-invalid-go", "C09.file-is-syntactically-valid-go", strings.HasPrefix(vhC09Results[res][0], "(map["))
+	run, ok := vhC09Generate(routes, cfg)
+	vhC09Finish(run, ok, "routes", engine, "Op")
+}
+
+// the generation flags, route security and the package name: an enum parameter, an enum-bearing model in and out
+func vh_C09_front_flags_Q() {
+	engine := symxChoice("engine", 5)
+	cfg := vhC09Config(engine, []string{"", "my_routes"}[symxChoice("package", 2)])
+	cfg.RoutesConfig.ValidateResponsePayload = vhC09Flag("validateResponsePayload")
+	cfg.ExperimentalConfig.GenerateEnumValidator = vhC09Flag("generateEnumValidator")
+	cfg.ExperimentalConfig.ValidateTopLevelOnlyEnum = vhC09Flag("validateTopLevelOnlyEnum")
+	secured := vhC09Flag("secured")
+	if secured {
+		cfg.OpenAPIGeneratorConfig.SecuritySchemes = []definitions.SecuritySchemeConfig{{SecurityName: "sec", FieldName: "x-key", Type: "apiKey", In: "header"}}
+	}
+	routes := []vhC09Route{
+		{name: "Op", verb: "POST", path: "/op/{k}", params: []vhC09Param{{"k", "Path", "Kind"}, {"lvl", "Query", "Level"}, {"o", "Header", "other.Kind"}, {"m", "Body", "Model"}}, result: 1, security: secured},
+		{name: "List", verb: "GET", path: "/list", params: []vhC09Param{{"ks", "Query", "[]Kind"}}, result: 5},
+	}
+	want := "routes"
+	if cfg.RoutesConfig.PackageName != "" {
+		want = cfg.RoutesConfig.PackageName
+	}
+	run, ok := vhC09Generate(routes, cfg)
+	vhC09Finish(run, ok, want, engine, "Op", "List")
+}
+
+// parameter names: whatever identifier the user chose - snake case, capitals, names the generated handler itself
+// uses for its locals - two of them side by side, each in any location
+var vhC09Names = []string{"p1", "a_b", "aB", "Value", "value", "err", "controller", "ID", "engine", "opError", "ctx", "x_y_z"}
+
+func vhC09ParamNames(nNames int, engine, n1, n2, l1, l2 int) {
+	locs := []string{"Query", "Header"}
+	routes := []vhC09Route{{name: "Op", verb: "GET", path: "/op", params: []vhC09Param{{vhC09Names[n1], locs[l1], "string"}, {vhC09Names[n2], locs[l2], "*int"}}, result: 1}}
+	run, ok := vhC09Generate(routes, vhC09Config(engine, ""))
+	if !ok {
+		return
+	}
+	// the handler declares <lowerCamel(name)>Raw / RawPtr per parameter: two names that differ only in what lower
+	// camel case erases meet in one local (recorded finding; everything else must still hold)
+	collide := strcase.ToLowerCamel(vhC09Names[n1]) == strcase.ToLowerCamel(vhC09Names[n2])
+	symxKnownFor("C09-parameter-names-collide-after-camel-casing", "C09.parameters-of-a-route-get-distinct-locals", collide)
+	symxAssert(!collide, "C09.parameters-of-a-route-get-distinct-locals")
+	vhC09Finish(run, ok, "routes", engine, "Op")
+}
+
+func vh_C09_front_param_names_Q() {
+	engine := symxChoice("engine", 5)
+	n1, n2 := symxChoice("name1", 8), symxChoice("name2", 8)
+	symxAssume(n1 < n2)
+	vhC09ParamNames(8, engine, n1, n2, 0, 1)
+}
+
+func vh_C09_front_param_names_T() {
+	engine := symxChoice("engine", 5)
+	n1, n2 := symxChoice("name1", len(vhC09Names)), symxChoice("name2", len(vhC09Names))
+	symxAssume(n1 < n2)
+	vhC09ParamNames(len(vhC09Names), engine, n1, n2, symxChoice("loc1", 2), symxChoice("loc2", 2))
+}
+
+// several routes whose parameters and results come from two packages that share type names, and repeat across routes:
+// every import alias stays distinct and used
+func vhC09Aliases(engine, pa, pb, ra, rb int) {
+	types := []string{"other.Ext", "Model", "*other.Ext", "[]other.Ext"}
+	results := []int{3, 1, 5}
+	routes := []vhC09Route{
+		{name: "A", verb: "POST", path: "/a", params: []vhC09Param{{"data", "Body", types[pa]}, {"kind", "Query", "other.Kind"}}, result: results[ra]},
+		{name: "B", verb: "PUT", path: "/b", params: []vhC09Param{{"data", "Body", types[pb]}, {"kind", "Header", "Kind"}}, result: results[rb]},
+	}
+	run, ok := vhC09Generate(routes, vhC09Config(engine, ""))
+	vhC09Finish(run, ok, "routes", engine, "A", "B")
+}
+
+func vh_C09_front_import_aliases_Q() {
+	engine := symxChoice("engine", 5)
+	pa, pb := symxChoice("a", 4), symxChoice("b", 4)
+	r := symxChoice("r", 2)
+	vhC09Aliases(engine, pa, pb, r, 1-r)
+}
+
+func vh_C09_front_import_aliases_T() {
+	vhC09Aliases(symxChoice("engine", 5), symxChoice("a", 4), symxChoice("b", 4), symxChoice("ra", 3), symxChoice("rb", 3))
+}
+
+// a context.Context parameter in any position (or none), beside a string and a converted parameter, with or without
+// a body
+func vh_C09_front_context_Q() {
+	engine := symxChoice("engine", 5)
+	pos := symxChoice("ctxAt", 4) // 0: none, 1: first, 2: between, 3: last
+	body := vhC09Flag("body")
+	converted := vhC09Flag("converted")
+	second := vhC09Param{"p2", "Header", "string"}
+	if converted {
+		second.typ = "int"
+	}
+	params := []vhC09Param{{"p1", "Query", "string"}, second}
+	if body {
+		params = append(params, vhC09Param{"m", "Body", "Model"})
+	}
+	ctx := vhC09Param{"ctx", "", "context.Context"}
+	switch pos {
+	case 1:
+		params = append([]vhC09Param{ctx}, params...)
+	case 2:
+		params = append([]vhC09Param{params[0], ctx}, params[1:]...)
+	case 3:
+		params = append(params, ctx)
+	}
+	routes := []vhC09Route{{name: "Op", verb: "POST", path: "/op", params: params, result: 1}}
+	run, ok := vhC09Generate(routes, vhC09Config(engine, ""))
+	vhC09Finish(run, ok, "routes", engine, "Op")
+}
+
+// thorough: body x result x engine, two converted parameters of different types beside them
+func vh_C09_front_cross_T() {
+	engine := symxChoice("engine", 5)
+	body := symxChoice("body", len(vhC09BodyTypes))
+	res := symxChoice("result", len(vhC09Results))
+	pt := symxChoice("ptype", len(vhC09ParamTypes))
+	symxAssume(!strings.HasPrefix(vhC09BodyTypes[body], "map[") && !strings.HasPrefix(vhC09Results[res][0], "(map[")) // recorded findings, see the _Q harnesses
+	cfg := vhC09Config(engine, "")
+	cfg.RoutesConfig.ValidateResponsePayload = vhC09Flag("validateResponsePayload")
+	routes := []vhC09Route{{name: "Op", verb: "POST", path: "/op", params: []vhC09Param{{"q", "Query", vhC09ParamTypes[pt]}, {"payload", "Body", vhC09BodyTypes[body]}}, result: res}}
+	run, ok := vhC09Generate(routes, cfg)
+	vhC09Finish(run, ok, "routes", engine, "Op")
 }
